@@ -16,4 +16,5 @@ Bytes ref_iv_chain(const Bytes &seedstr, int T);
 Bytes ref_decrypt_body(const Bytes &body, const uint8_t key[16], const uint8_t iv16[16], int cmode, int T, size_t CH);
 void ref_aes_ecb_dec(const uint8_t key[16], const uint8_t in[16], uint8_t out[16]);
 void ref_aes_ecb_enc(const uint8_t key[16], const uint8_t in[16], uint8_t out[16]);
+Bytes ref_hmac_synth(int hmode, const uint8_t key[16], long len, uint64_t seed);  // HMAC of SimFile::synth_byte content
 bool ref_selftest(std::string &err);
